@@ -171,6 +171,80 @@ def source_state(pid):
 
 
 # ----------------------------------------------------------------------------------------------
+# step 3a: which lines and branches of the anchored source did the cases reach?  (evidence only, never a verdict)
+# ----------------------------------------------------------------------------------------------
+def start_source_coverage(tier):
+    """line+branch tracing of REPO/praatio while the cases are generated and run on the implementation: always in the
+    thorough tier, in the quick tier with VERIF_COVERAGE=1 (it roughly doubles the implementation time); VERIF_COVERAGE=0
+    switches it off"""
+    want = os.environ.get("VERIF_COVERAGE", "")
+    if want == "0" or (tier != "thorough" and want != "1"):
+        return None
+    try:
+        import coverage
+    except ImportError:
+        return None
+    cov = coverage.Coverage(data_file=None, branch=True, config_file=False, include=[os.path.join(REPO, "praatio", "*")])
+    cov.start()
+    return cov
+
+
+def source_coverage_report(cov, files):
+    """per anchored file: for every function at least one body line of which ran, the body lines that never ran and the
+    branches never taken; functions no case entered are listed by name only"""
+    import ast
+
+    cov.stop()
+    out = {}
+    for f in files:
+        path = os.path.join(REPO, f)
+        if not os.path.exists(path):
+            continue
+        try:
+            _, statements, _, missing, _ = cov.analysis2(path)
+            try:
+                untaken = cov._analyze(path).missing_branch_arcs()
+            except Exception:
+                untaken = {}
+            tree = ast.parse(open(path).read())
+        except Exception as e:  # measurement trouble is never a verdict
+            out[f] = {"error": repr(e)}
+            continue
+        statements, missing = set(statements), set(missing)
+        funcs = []
+
+        def walk(node, prefix):
+            for ch in ast.iter_child_nodes(node):
+                if isinstance(ch, (ast.FunctionDef, ast.AsyncFunctionDef)):
+                    funcs.append((prefix + ch.name, ch.body[0].lineno, ch.end_lineno))
+                    walk(ch, prefix + ch.name + ".")
+                elif isinstance(ch, ast.ClassDef):
+                    walk(ch, prefix + ch.name + ".")
+                else:
+                    walk(ch, prefix)
+
+        walk(tree, "")
+        entered, not_entered, gaps, tot, hit = 0, [], {}, 0, 0
+        for name, lo, hi in funcs:
+            body = {l for l in statements if lo <= l <= hi}
+            if not body:
+                continue
+            miss = sorted(body & missing)
+            if len(miss) == len(body):
+                not_entered.append(name)
+                continue
+            entered += 1
+            tot += len(body)
+            hit += len(body) - len(miss)
+            br = sorted([a, b] for a, bs in untaken.items() if lo <= a <= hi and a not in missing for b in bs)
+            if miss or br:
+                gaps[name] = {"lines_never_run": miss, "branches_never_taken": br}
+        out[f] = {"functions_entered": entered, "body_lines_run": hit, "body_lines": tot, "gaps": gaps,
+                  "functions_not_entered": not_entered}
+    return out
+
+
+# ----------------------------------------------------------------------------------------------
 # step 3: model driver
 # ----------------------------------------------------------------------------------------------
 def run_model(lines, mode):
@@ -291,6 +365,7 @@ def main(argv=None):
     # a change in an anchored source file since the model was last pinned is not a violation, but it is the moment to
     # look harder: the quick tier then samples at the size of the thorough tier
     src_sha, src_changed = source_state(pid)
+    cov = start_source_coverage(tier)
     gen_tier = tier
     if src_changed and tier == "quick" and not os.environ.get("VERIF_NO_ESCALATE") and getattr(prop, "ESCALATE", True):
         gen_tier = "thorough"
@@ -326,6 +401,7 @@ def main(argv=None):
         if f is not None:
             oracle_fail.append((idx, f))
     t_impl = time.time() - t_impl
+    src_cov = source_coverage_report(cov, sorted(src_sha)) if cov is not None else None
 
     linesF, linesX, idxX = [], [], []
     for idx, c in enumerate(cases):
@@ -466,6 +542,7 @@ def main(argv=None):
             "leanchecker_modules": rechecked,
             "anchored_source_sha256": src_sha,
             "anchored_source_changed_since_pin": src_changed,
+            "anchored_source_reached": src_cov if src_cov is not None else "not measured in this run (thorough tier, or VERIF_COVERAGE=1)",
             "unproved": problems,
             "evaluations": len(cases),
             "distinct_nontrivial": len(distinct),
